@@ -8,14 +8,14 @@ import subprocess
 import sys
 
 
-def run_calls(calls, timeout=120):
+def run_calls(calls, timeout=120, flags=()):
 	"""calls: list of [name, arg(str, latin-1), k or None]. Returns list of ['ok', value] / ['err', exception class name]."""
 	env = dict(os.environ)
 	src = os.environ.get('VERIF_GAMBIT_SRC')
 	if src:
 		env['PYTHONPATH'] = src + os.pathsep + env.get('PYTHONPATH', '')
 	here = os.path.dirname(os.path.dirname(os.path.abspath(__file__)))
-	p = subprocess.run([sys.executable, os.path.join(here, 'vlib', 'freshproc.py')], input=json.dumps(calls).encode(), env=env,
+	p = subprocess.run([sys.executable] + list(flags) + [os.path.join(here, 'vlib', 'freshproc.py')], input=json.dumps(calls).encode(), env=env,
 	                   stdout=subprocess.PIPE, stderr=subprocess.PIPE, timeout=timeout)
 	if p.returncode != 0:
 		raise RuntimeError(f'fresh process failed: {p.stderr.decode("utf-8", "replace")[-800:]}')
